@@ -562,8 +562,11 @@ func (db *Database) performFuzzySearch(query string, options SearchOptions) []Se
 	currentPlatform := getCurrentPlatform()
 
 	var results []SearchResult
-	for i, match := range matches {
-		if i >= candidateLimit(options.Limit) { // Get more for better selection
+	for _, match := range matches {
+		// Get more for better selection. The cap counts accepted candidates, not examined matches:
+		// when the best matches are all filtered out (other platforms, not a pipeline command) an
+		// eligible weaker match must still be found
+		if len(results) >= candidateLimit(options.Limit) {
 			break
 		}
 
